@@ -18,8 +18,12 @@
         every for_all's condition for EVERY value of its universal variable (induction over the
         chain with a soundness/completeness invariant: stages_inv, stage_sound, stage_complete).
     rowsForAll_eq_stages(_none)  the single-for_all entry point is the one/two-conjunct chain.
-  Model only (correspondence, no theorem): nested for_alls (`evalForAllN`), a conjunct that
-  mentions a universal variable free, caching (see C05-F3).
+        Nested for_alls `for_all(u₀, for_all(u₁, … c))` are conjuncts of the chain too: the condition
+        must hold for EVERY combination of universal values (`SemN`; `nested_sound` /
+        `nested_complete` by induction over the nesting, with the exact lookup table `LK` of every
+        output of every level as invariant).
+  Model only (correspondence, no theorem): a conjunct that mentions a universal variable free,
+  caching (see C05-F3).
 -/
 import EqlModel.ForAll
 import EqlModel.Lemmas.Support
@@ -522,18 +526,280 @@ theorem evalForAllN_single (u : VarId) (c : Cond V) (β : Bnd V) :
   | nil => rfl
   | cons p ps => simp only [hs]
 
+theorem lookup_none_of_not_bound' {β : Bnd V} {v : VarId} (h : ¬ bound β v = true) : β.lookup v = none := by
+  unfold bound at h
+  cases hl : β.lookup v with
+  | none => rfl
+  | some a => rw [hl] at h; simp at h
+
+/-! ### Nested for_alls: `for_all(u₀, for_all(u₁, … c))` -/
+
+/-- `for_all(u₀, for_all(u₁, … c))` read over a total assignment: `c` holds for EVERY combination of
+    values of the universal variables. -/
+def SemN : List VarId → Cond V → Asg V → Prop
+  | [], c, α => denote W α c = true
+  | u :: us, c, α => ∀ o ∈ D u, SemN us c (upd α u o)
+
+theorem semN_congr (c : Cond V) (hf : c.noFlat = true) : ∀ (us : List VarId) (α α' : Asg V),
+    (∀ v ∈ c.vars, v ∉ us → α v = α' v) → (SemN W D us c α ↔ SemN W D us c α') := by
+  intro us
+  induction us with
+  | nil =>
+    intro α α' h
+    simp only [SemN]
+    rw [denote_congr W c hf α α' (fun v hv => h v hv (by simp))]
+  | cons u us ih =>
+    intro α α' h
+    simp only [SemN]
+    have hag : ∀ o, ∀ v ∈ c.vars, v ∉ us → upd α u o v = upd α' u o v := by
+      intro o v hv hn
+      by_cases e : v = u
+      · simp [upd, e]
+      · simp only [upd, e, if_false]
+        exact h v hv (by simp [e, hn])
+    constructor
+    · intro hs o ho; exact (ih _ _ (hag o)).1 (hs o ho)
+    · intro hs o ho; exact (ih _ _ (hag o)).2 (hs o ho)
+
+/-- What an output of a (nested) for_all binds: the non-universal variables of the condition, to the
+    values of `α`; everything else as the incoming binding has it. -/
+def LK (c : Cond V) (us : List VarId) (α : Asg V) (β β' : Bnd V) : Prop :=
+  ∀ k, β'.lookup k = if k ∈ c.vars ∧ k ∉ us then some (α k) else β.lookup k
+
+theorem mem_idsN (c : Cond V) (u : VarId) (us : List VarId) (v : VarId) :
+    v ∈ idsN c u us ↔ ((v ∈ c.vars ∨ v ∈ us) ∧ v ≠ u) := by
+  simp [idsN, List.mem_eraseDups]
+
+theorem lookup_mergeBack_map (ids : List VarId) (f : VarId → Option V) (β : Bnd V) (k : VarId) :
+    (mergeBack (ids.map fun j => (j, f j)) β).lookup k =
+      if k ∈ ids ∧ (f k).isSome = true then f k else β.lookup k := by
+  induction ids with
+  | nil => simp [mergeBack]
+  | cons j js ih =>
+    simp only [mergeBack, List.map_cons, List.filterMap_cons] at ih ⊢
+    cases hfj : f j with
+    | none =>
+      simp only [Option.map_none]
+      rw [ih]
+      by_cases e : k = j
+      · subst e; simp [hfj]
+      · simp [e]
+    | some a =>
+      simp only [Option.map_some, List.cons_append]
+      by_cases e : k = j
+      · subst e; simp [List.lookup, hfj]
+      · have : (k == j) = false := by simp [e]
+        simp only [List.lookup, this]
+        rw [ih]
+        simp [e]
+
+/-- The level loop of `ForAll._evaluate__` over an arbitrary evaluation of its condition. -/
+theorem forallG_mem (u : VarId) (ids : List VarId) (evalC : Bnd V → List (Bnd V)) (hD : D u ≠ [])
+    (β : Bnd V) (hβu : β.lookup u = none) (β' : Bnd V) :
+    β' ∈ evalForAllG W D u ids evalC β ↔
+      ∃ d0, (∀ o ∈ D u, d0 ∈ (evalC ((u, o) :: β)).map (restrictTo ids)) ∧ β' = mergeBack d0 β := by
+  have huv : evalTerm W D (.var u) β = (D u).map fun o => ((u, o) :: β, o) := by
+    simp [evalTerm, hβu]
+  simp only [evalForAllG, huv]
+  cases hDu : D u with
+  | nil => exact absurd hDu hD
+  | cons o1 os =>
+    simp only [List.map_cons]
+    rw [List.mem_map]
+    constructor
+    · rintro ⟨d0, hd0, rfl⟩
+      rw [foldl_filter_mem (fun (p' : Bnd V × V) d => ((evalC p'.1).map (restrictTo ids)).contains d)] at hd0
+      refine ⟨d0, ?_, rfl⟩
+      intro o ho
+      rcases List.mem_cons.1 ho with rfl | ho
+      · exact hd0.1
+      · have := hd0.2 ((u, o) :: β, o) (List.mem_map.2 ⟨o, ho, rfl⟩)
+        simpa using this
+    · rintro ⟨d0, hd0, rfl⟩
+      refine ⟨d0, ?_, rfl⟩
+      rw [foldl_filter_mem (fun (p' : Bnd V × V) d => ((evalC p'.1).map (restrictTo ids)).contains d)]
+      refine ⟨hd0 o1 List.mem_cons_self, ?_⟩
+      intro p' hp'
+      obtain ⟨o, ho, rfl⟩ := List.mem_map.1 hp'
+      simpa using hd0 o (List.mem_cons_of_mem _ ho)
+
+/-- The restriction a level computes from an output of the level below. -/
+def canonG (c : Cond V) (us ids : List VarId) (α : Asg V) (β : Bnd V) : List (VarId × Option V) :=
+  ids.map fun k => (k, if k ∈ c.vars ∧ k ∉ us then some (α k) else β.lookup k)
+
+theorem restrict_lk (c : Cond V) (u : VarId) (us : List VarId) (o : V) (α : Asg V) (β β'' : Bnd V)
+    (h : LK c us α ((u, o) :: β) β'') :
+    restrictTo (idsN c u us) β'' = canonG c us (idsN c u us) α β := by
+  simp only [restrictTo, canonG]
+  apply List.map_congr_left
+  intro k hk
+  have hne : k ≠ u := ((mem_idsN c u us k).1 hk).2
+  rw [h k, lookup_cons_ne β o hne]
+
+theorem lk_merge (c : Cond V) (u : VarId) (us : List VarId) (α : Asg V) (β : Bnd V) :
+    LK c (u :: us) α β (mergeBack (canonG c us (idsN c u us) α β) β) := by
+  intro k
+  simp only [canonG]
+  rw [lookup_mergeBack_map]
+  by_cases hA : k ∈ c.vars ∧ k ∉ u :: us
+  · have hk : k ∈ idsN c u us := (mem_idsN c u us k).2 ⟨Or.inl hA.1, by intro e; exact hA.2 (by simp [e])⟩
+    have hB : k ∈ c.vars ∧ k ∉ us := ⟨hA.1, fun h => hA.2 (List.mem_cons_of_mem _ h)⟩
+    simp [hk, hB, hA]
+  · rw [if_neg hA]
+    by_cases hk : k ∈ idsN c u us
+    · have hne : k ≠ u := ((mem_idsN c u us k).1 hk).2
+      have hB : ¬ (k ∈ c.vars ∧ k ∉ us) := by
+        intro hB; exact hA ⟨hB.1, by simp [hne, hB.2]⟩
+      simp only [hB, if_false]
+      split
+      · rfl
+      · rfl
+    · simp [hk]
+
+/-- The base level: the true outputs of the condition itself. -/
+theorem lk_base (c : Cond V) (hf : c.noFlat = true) (hu : Cond.uniformOr c) (ctx β'' : Bnd V)
+    (hq : (β'', false) ∈ evalCond W D c ctx false) (α : Asg V) (he : Ext β'' α) :
+    LK c [] α ctx β'' := by
+  intro k
+  have htot := true_output_total W D c hf hu ctx β'' false hq
+  have hsub := cond_sub W D c hf ctx β'' false false hq
+  have hsupp := cond_supp W D c hf ctx β'' false false hq
+  by_cases hk : k ∈ c.vars
+  · obtain ⟨a, ha⟩ := bound_iff.1 (htot k hk)
+    simp [hk, ha, he k a ha]
+  · simp only [hk, false_and, if_false]
+    cases hl : ctx.lookup k with
+    | some a => exact hsub k a hl
+    | none =>
+      apply lookup_none_of_not_bound'
+      intro hb
+      rcases hsupp.1 k hb with h1 | h1
+      · rw [bound_iff] at h1; obtain ⟨a, ha⟩ := h1; rw [hl] at ha; cases ha
+      · exact hk h1
+
+theorem nested_sound (c : Cond V) (hf : c.noFlat = true) (hu : Cond.uniformOr c) :
+    ∀ (us : List VarId), us.Nodup → (∀ u ∈ us, D u ≠ []) → ∀ (β : Bnd V), BOk D β →
+    (∀ u ∈ us, β.lookup u = none) → ∀ β', β' ∈ evalForAllN W D us c β →
+    ∃ α, Ext β α ∧ (∀ v ∈ c.vars, v ∉ us → α v ∈ D v) ∧ SemN W D us c α ∧ LK c us α β β' := by
+  intro us
+  induction us with
+  | nil =>
+    intro _ _ β hb _ β' h
+    simp only [evalForAllN, List.mem_map, List.mem_filter] at h
+    obtain ⟨q, ⟨hq, hq2⟩, rfl⟩ := h
+    have hq2' : q.2 = false := by simpa using hq2
+    have hq' : (q.1, false) ∈ evalCond W D c β false := by
+      have e : (q.1, false) = q := by rw [← hq2']
+      rw [e]; exact hq
+    have htot := true_output_total W D c hf hu β q.1 false hq'
+    have hbq := cond_bok W D c hf β q.1 false false hb hq'
+    have hadm : ∀ v ∈ c.vars, asgOfBnd q.1 v ∈ D v := by
+      intro v hv
+      obtain ⟨a, ha⟩ := bound_iff.1 (htot v hv)
+      simp only [asgOfBnd, ha, Option.getD_some]
+      exact hbq v a ha
+    have hs := ((cond_sound_complete W D c hf).1 β q.1 false false hq').2 (asgOfBnd q.1) hadm (ext_asgOfBnd q.1)
+    exact ⟨asgOfBnd q.1, hs.1, fun v hv _ => hadm v hv, by simpa [SemN] using hs.2,
+      lk_base W D c hf hu β q.1 hq' _ (ext_asgOfBnd q.1)⟩
+  | cons u us ih =>
+    intro hnd hDs β hb hc β' h
+    have hnd' := List.nodup_cons.1 hnd
+    have hDu : D u ≠ [] := hDs u List.mem_cons_self
+    have hβu : β.lookup u = none := hc u List.mem_cons_self
+    simp only [evalForAllN] at h
+    obtain ⟨d0, hd0, rfl⟩ := (forallG_mem W D u _ _ hDu β hβu β').1 h
+    -- what the level below says under one universal value
+    have hlev : ∀ o ∈ D u, ∃ α, α u = o ∧ Ext β α ∧ (∀ v ∈ c.vars, v ∉ us → α v ∈ D v) ∧ SemN W D us c α ∧
+        d0 = canonG c us (idsN c u us) α β := by
+      intro o ho
+      obtain ⟨β'', hβ'', hr⟩ := List.mem_map.1 (hd0 o ho)
+      have hc' : ∀ w ∈ us, List.lookup w ((u, o) :: β) = none := by
+        intro w hw
+        have : w ≠ u := by intro e; subst e; exact hnd'.1 hw
+        rw [lookup_cons_ne β o this]; exact hc w (List.mem_cons_of_mem _ hw)
+      obtain ⟨α, hext, hadm, hsem, hlk⟩ := ih hnd'.2 (fun w hw => hDs w (List.mem_cons_of_mem _ hw))
+        ((u, o) :: β) (bok_cons hb ho) hc' β'' hβ''
+      have hx := (ext_cons_fresh hβu).1 hext
+      exact ⟨α, hx.1, hx.2, hadm, hsem, by rw [← hr]; exact restrict_lk c u us o α β β'' hlk⟩
+    obtain ⟨o1, ho1⟩ : ∃ o1, o1 ∈ D u := by
+      cases hDu' : D u with
+      | nil => exact absurd hDu' hDu
+      | cons o1 os => exact ⟨o1, List.mem_cons_self⟩
+    obtain ⟨α1, _, hext1, hadm1, _, hd1⟩ := hlev o1 ho1
+    refine ⟨α1, hext1, fun v hv hn => hadm1 v hv (fun h => hn (List.mem_cons_of_mem _ h)), ?_, ?_⟩
+    · intro o ho
+      obtain ⟨αo, hαu, _, _, hsem, hdo⟩ := hlev o ho
+      refine (semN_congr W D c hf us _ _ ?_).2 hsem
+      intro v hv hn
+      by_cases e : v = u
+      · subst e; simp [upd, hαu]
+      · simp only [upd, e, if_false]
+        have hk : v ∈ idsN c u us := (mem_idsN c u us v).2 ⟨Or.inl hv, e⟩
+        have := List.map_inj_left.1 (hd1.symm.trans hdo) v hk
+        simpa [hv, hn] using this
+    · rw [hd1]; exact lk_merge c u us α1 β
+
+theorem nested_complete (c : Cond V) (hf : c.noFlat = true) (hu : Cond.uniformOr c) :
+    ∀ (us : List VarId), us.Nodup → (∀ u ∈ us, D u ≠ []) → ∀ (β : Bnd V), BOk D β →
+    (∀ u ∈ us, β.lookup u = none) → ∀ (α : Asg V), Ext β α → (∀ v ∈ c.vars, v ∉ us → α v ∈ D v) →
+    SemN W D us c α → ∃ β' ∈ evalForAllN W D us c β, LK c us α β β' := by
+  intro us
+  induction us with
+  | nil =>
+    intro _ _ β hb _ α hext hadm hsem
+    have hsc := cond_sound_complete W D c hf
+    obtain ⟨q, hq, he⟩ := hsc.2 β α false hext (fun v hv => hadm v hv (by simp)) (Or.inr (by simpa [SemN] using hsem))
+    have hq2 : q.2 = false := (hsc.1 β q.1 q.2 false hq).1 rfl
+    have hq' : (q.1, false) ∈ evalCond W D c β false := by
+      have e : (q.1, false) = q := by rw [← hq2]
+      rw [e]; exact hq
+    refine ⟨q.1, ?_, lk_base W D c hf hu β q.1 hq' α he⟩
+    simp only [evalForAllN, List.mem_map, List.mem_filter]
+    exact ⟨q, ⟨hq, by simp [hq2]⟩, rfl⟩
+  | cons u us ih =>
+    intro hnd hDs β hb hc α hext hadm hsem
+    have hnd' := List.nodup_cons.1 hnd
+    have hDu : D u ≠ [] := hDs u List.mem_cons_self
+    have hβu : β.lookup u = none := hc u List.mem_cons_self
+    refine ⟨mergeBack (canonG c us (idsN c u us) α β) β, ?_, lk_merge c u us α β⟩
+    simp only [evalForAllN]
+    refine (forallG_mem W D u _ _ hDu β hβu _).2 ⟨_, ?_, rfl⟩
+    intro o ho
+    have hc' : ∀ w ∈ us, List.lookup w ((u, o) :: β) = none := by
+      intro w hw
+      have : w ≠ u := by intro e; subst e; exact hnd'.1 hw
+      rw [lookup_cons_ne β o this]; exact hc w (List.mem_cons_of_mem _ hw)
+    have hext' : Ext ((u, o) :: β) (upd α u o) := by
+      refine (ext_cons_fresh hβu).2 ⟨by simp [upd], ?_⟩
+      intro v a hva
+      have : v ≠ u := by intro e; subst e; rw [hβu] at hva; cases hva
+      simp only [upd, this, if_false]; exact hext v a hva
+    have hadm' : ∀ v ∈ c.vars, v ∉ us → upd α u o v ∈ D v := by
+      intro v hv hn
+      by_cases e : v = u
+      · subst e; simpa [upd] using ho
+      · simp only [upd, e, if_false]; exact hadm v hv (by simp [e, hn])
+    obtain ⟨β'', hβ'', hlk⟩ := ih hnd'.2 (fun w hw => hDs w (List.mem_cons_of_mem _ hw))
+      ((u, o) :: β) (bok_cons hb ho) hc' (upd α u o) hext' hadm' (hsem o ho)
+    refine List.mem_map.2 ⟨β'', hβ'', ?_⟩
+    rw [restrict_lk c u us o _ β β'' hlk]
+    simp only [canonG]
+    apply List.map_congr_left
+    intro k hk
+    have hne : k ≠ u := ((mem_idsN c u us k).1 hk).2
+    simp [upd, hne]
+
 /-- What a conjunct says about a total assignment. -/
 def Stage.sem : Stage V → Asg V → Prop
   | .cond c, α => denote W α c = true
-  | .forAll [u] c, α => ∀ o ∈ D u, denote W (upd α u o) c = true
-  | .forAll _ _, _ => False
+  | .forAll us c, α => SemN W D us c α
 
 /-- The conjuncts the theorem covers; `U` = the universal variables of the chain (mentioned by no
-    ordinary conjunct, and by a for_all only as its own universal variable). -/
+    ordinary conjunct, and by a for_all only as one of its own universal variables). -/
 def Stage.ok (U : List VarId) : Stage V → Prop
   | .cond c => c.noFlat = true ∧ ∀ v ∈ c.vars, v ∉ U
-  | .forAll [u] c => c.noFlat = true ∧ Cond.uniformOr c ∧ D u ≠ [] ∧ u ∈ U ∧ ∀ v ∈ c.vars, v ∈ U → v = u
-  | .forAll _ _ => False
+  | .forAll us c => c.noFlat = true ∧ Cond.uniformOr c ∧ us.Nodup ∧ (∀ u ∈ us, D u ≠ [] ∧ u ∈ U) ∧
+      ∀ v ∈ c.vars, v ∈ U → v ∈ us
 
 /-- The non-universal variables of a conjunct. -/
 def Stage.vars : Stage V → List VarId
@@ -571,56 +837,32 @@ theorem stage_sound (U VS : List VarId) (s : Stage V) (hok : Stage.ok D U s)
       have := ((cond_sound_complete W D c hf).1 β q.1 false false hq').2 α
         (fun v hv => hadm v (hvs v hv)) hext
       exact ⟨this.1, by simpa [Stage.sem] using this.2⟩
-  | .forAll [u] c, hok, hvs, h =>
-    obtain ⟨hf, hu, hD, huU, hcu⟩ := hok
-    have hβu := hc u huU
-    simp only [evalStage, evalForAllN_single] at h
-    obtain ⟨d0, hd0, rfl⟩ := (forall_stage_mem W D u c hD β hβu β').1 h
-    obtain ⟨o1, ho1⟩ : ∃ o1, o1 ∈ D u := by
-      cases hDu : D u with
-      | nil => exact absurd hDu hD
-      | cons o1 os => exact ⟨o1, List.mem_cons_self⟩
-    obtain ⟨α1, _, hβα1, hv1, _, rfl⟩ := (sols_mem_ctx W D u o1 ho1 β hb hβu c hf hu d0).1 (hd0 o1 ho1)
-    rw [mergeBack_canon']
-    have hlk : ∀ v, List.lookup v ((List.map (fun k => (k, α1 k)) (freeIds c u)) ++ β) =
-        if v ∈ freeIds c u then some (α1 v) else β.lookup v := by
-      intro v
-      rw [List.lookup_append, lookup_map_ids]
-      split <;> simp
+  | .forAll us c, hok, hvs, h =>
+    obtain ⟨hf, hu, hnd, hUs, hcu⟩ := hok
+    simp only [evalStage] at h
+    obtain ⟨α1, hext1, hadm1, hsem1, hlk⟩ := nested_sound W D c hf hu us hnd (fun w hw => (hUs w hw).1) β hb
+      (fun w hw => hc w (hUs w hw).2) β' h
     refine ⟨?_, ?_, ?_⟩
     · intro v a hva
-      rw [hlk] at hva
+      rw [hlk v] at hva
       split at hva
-      · rename_i hm; injection hva with hva; rw [← hva]; exact hv1 v ((mem_freeIds c u v).1 hm).1
+      · rename_i hm; injection hva with hva; rw [← hva]; exact hadm1 v hm.1 hm.2
       · exact hb v a hva
     · intro w hw
-      rw [hlk]
+      rw [hlk w]
       split
-      · rename_i hm
-        have hm' := (mem_freeIds c u w).1 hm
-        exact absurd (hcu w hm'.1 hw) hm'.2
+      · rename_i hm; exact absurd (hcu w hm.1 hw) hm.2
       · exact hc w hw
     · intro α _ hext
-      have hagree : ∀ k ∈ freeIds c u, α k = α1 k := by
-        intro k hk
-        exact hext k (α1 k) (by rw [hlk]; simp [hk])
+      have hagree : ∀ k ∈ c.vars, k ∉ us → α k = α1 k := by
+        intro k hk hn
+        exact hext k (α1 k) (by rw [hlk k]; simp [hk, hn])
       refine ⟨?_, ?_⟩
       · intro v a hva
-        by_cases hm : v ∈ freeIds c u
-        · rw [hagree v hm]; exact hβα1 v a hva
-        · exact hext v a (by rw [hlk]; simp [hm, hva])
-      · intro o ho
-        obtain ⟨αo, hαu, _, _, hden, hcan⟩ := (sols_mem_ctx W D u o ho β hb hβu c hf hu _).1 (hd0 o ho)
-        rw [← hden]
-        apply denote_congr W c hf
-        intro v hv
-        by_cases e : v = u
-        · subst e; simp [upd, hαu]
-        · have hm : v ∈ freeIds c u := (mem_freeIds c u v).2 ⟨hv, e⟩
-          simp only [upd, e, if_false]
-          rw [hagree v hm, canonOf_inj _ _ _ hcan v hm]
-  | .forAll [] c, hok, _, _ => exact absurd hok (by simp [Stage.ok])
-  | .forAll (_ :: _ :: _) c, hok, _, _ => exact absurd hok (by simp [Stage.ok])
+        by_cases hm : v ∈ c.vars ∧ v ∉ us
+        · rw [hagree v hm.1 hm.2]; exact hext1 v a hva
+        · exact hext v a (by rw [hlk v]; simp only [hm, if_false]; exact hva)
+      · exact (semN_congr W D c hf us α α1 hagree).2 hsem1
 
 theorem stage_complete (U VS : List VarId) (s : Stage V) (hok : Stage.ok D U s)
     (hvs : ∀ v ∈ s.vars, v ∈ VS) (β : Bnd V) (hb : BOk D β) (hc : ∀ u ∈ U, β.lookup u = none)
@@ -635,38 +877,21 @@ theorem stage_complete (U VS : List VarId) (s : Stage V) (hok : Stage.ok D U s)
     refine ⟨p.1, ?_, hpe⟩
     simp only [evalStage, List.mem_map, List.mem_filter]
     exact ⟨p, ⟨hp, by simp [hp2]⟩, rfl⟩
-  | .forAll [u] c, hok, hvs, hsem =>
-    obtain ⟨hf, hu, hD, huU, hcu⟩ := hok
-    have hβu := hc u huU
-    have hvs' : ∀ v ∈ c.vars, v ≠ u → v ∈ VS := by
-      intro v hv hne
-      apply hvs v
-      simp [Stage.vars, hv, hne]
-    refine ⟨mergeBack (canonOf (freeIds c u) α) β, ?_, ?_⟩
-    · simp only [evalStage, evalForAllN_single]
-      refine (forall_stage_mem W D u c hD β hβu _).2 ⟨canonOf (freeIds c u) α, ?_, rfl⟩
-      intro o ho
-      refine (sols_mem_ctx W D u o ho β hb hβu c hf hu _).2 ⟨upd α u o, by simp [upd], ?_, ?_, hsem o ho, ?_⟩
-      · intro v a hva
-        have : v ≠ u := by intro e; subst e; rw [hβu] at hva; cases hva
-        simp only [upd, this, if_false]; exact hext v a hva
-      · intro v hvc
-        by_cases e : v = u
-        · subst e; simpa [upd] using ho
-        · simp only [upd, e, if_false]; exact hadm v (hvs' v hvc e)
-      · simp only [canonOf]
-        apply List.map_congr_left
-        intro k hk
-        have : k ≠ u := ((mem_freeIds c u k).1 hk).2
-        simp [upd, this]
-    · rw [mergeBack_canon']
-      intro v a hva
-      rw [List.lookup_append, lookup_map_ids] at hva
-      by_cases hm : v ∈ freeIds c u
-      · simp [hm] at hva; exact hva
-      · simp [hm] at hva; exact hext v a hva
-  | .forAll [] c, hok, _, _ => exact absurd hok (by simp [Stage.ok])
-  | .forAll (_ :: _ :: _) c, hok, _, _ => exact absurd hok (by simp [Stage.ok])
+  | .forAll us c, hok, hvs, hsem =>
+    obtain ⟨hf, hu, hnd, hUs, hcu⟩ := hok
+    have hadm' : ∀ v ∈ c.vars, v ∉ us → α v ∈ D v := by
+      intro v hv hn
+      apply hadm v (hvs v _)
+      simp only [Stage.vars, List.mem_filter]
+      exact ⟨hv, by simpa using hn⟩
+    obtain ⟨β', hβ', hlk⟩ := nested_complete W D c hf hu us hnd (fun w hw => (hUs w hw).1) β hb
+      (fun w hw => hc w (hUs w hw).2) α hext hadm' hsem
+    refine ⟨β', hβ', ?_⟩
+    intro v a hva
+    rw [hlk v] at hva
+    split at hva
+    · injection hva
+    · exact hext v a hva
 
 /-- The invariant of the left-to-right evaluation of the chain. -/
 theorem stages_inv (U VS : List VarId) : ∀ (stages done : List (Stage V)) (bs : List (Bnd V)),
@@ -710,10 +935,11 @@ theorem stages_inv (U VS : List VarId) : ∀ (stages done : List (Stage V)) (bs 
 
 /-- **C10, combined with other conditions by `and_`.**  For a chain of conjuncts - ordinary
     conditions and for_alls whose conditions have uniform disjunctions, over non-empty domains,
-    in ANY order, several for_alls over the same universal variable included -
+    in ANY order, several for_alls over the same universal variable and NESTED for_alls
+    `for_all(u₀, for_all(u₁, … c))` included -
     `an(set_of(sel, s₁, s₂, …))` returns exactly the projections of the assignments that satisfy
-    every ordinary conjunct and satisfy every for_all's condition for EVERY value of its universal
-    variable.  (Partial: nested for_alls, non-uniform disjunctions inside a for_all - C10-F1 - and
+    every ordinary conjunct and satisfy every for_all's condition for EVERY (combination of) value(s)
+    of its universal variable(s).  (Partial: non-uniform disjunctions inside a for_all - C10-F1 - and
     conjuncts that mention a universal variable free are outside the statement.) -/
 theorem c10_and_chain_partial (sel : List (Term V)) (stages : List (Stage V)) (U VS : List VarId)
     (hfs : Terms.noFlat sel = true) (hok : ∀ s ∈ stages, Stage.ok D U s)
@@ -783,10 +1009,23 @@ example :
       [.forAll [1] (.cmp .ge (.var 0) (.var 1)), .forAll [1] (.cmp .ne (.var 0) (.var 1)),
        .cond (.cmp .lt (.var 0) (.lit 4))] = [[3]] := by decide
 
-/-- … and a nested for_all (model only, no theorem): `for_all(u, for_all(v, x ≥ u ∧ u ≥ v))`. -/
+/-- … and a nested for_all: `for_all(u, for_all(v, x ≥ u ∧ u ≥ v))` - an instance of the chain theorem
+    (its hypotheses are met: next example). -/
 example :
     let D : VarId → List Nat := fun v => if v = 0 then [1, 2, 3] else if v = 1 then [2, 3] else [1, 2]
     rowsStages natWorld D [.var 0]
       [.forAll [1, 2] (.and (.cmp .ge (.var 0) (.var 1)) (.cmp .ge (.var 1) (.var 2)))] = [[3]] := by decide
+
+example :
+    let D : VarId → List Nat := fun v => if v = 0 then [1, 2, 3] else if v = 1 then [2, 3] else [1, 2]
+    Stage.ok D [1, 2] (Stage.forAll [1, 2]
+      (Cond.and (.cmp .ge (.var 0) (.var 1)) (.cmp .ge (.var 1) (.var 2)) : Cond Nat)) := by
+  intro D
+  refine ⟨by decide, ?_, by decide, ?_, ?_⟩
+  · simp [Cond.uniformOr]
+  · intro u hu
+    simp only [List.mem_cons, List.not_mem_nil, or_false] at hu
+    rcases hu with rfl | rfl <;> simp [D]
+  · intro v hv hU; exact hU
 
 end Eql
